@@ -262,6 +262,22 @@ def corpus_cases():
     return json.load(open(p))['cases'] if os.path.exists(p) else []
 
 
+def share_assets(rng, c):
+    """equivalent construction: some bundles of the pool hold ONE Asset object under two policies (the driver shares the object
+    for equal literals when the case carries share=True) -- the selectors' running totals must treat each policy as its own"""
+    if rng.random() >= 0.12:
+        return c
+    extra = 'ab' * 28
+    hit = False
+    for v in c['pool']:
+        if v[1] and rng.random() < 0.7 and all(p != extra for p, _ in v[1]):
+            v[1] = v[1] + [[extra, [list(x) for x in v[1][0][1]]]]
+            hit = True
+    if hit:
+        c['share'] = True
+    return c
+
+
 def gen_cases(ctx, n_small, n_large, exhaustive):
     rng = ctx.rng
     cases = list(corpus_cases())
@@ -269,8 +285,8 @@ def gen_cases(ctx, n_small, n_large, exhaustive):
     if exhaustive:
         cases += exhaustive_small(rng, *exhaustive)
     cases += [small_case(rng) for _ in range(n_small)]
-    cases += [large_case(rng) for _ in range(n_large)]
-    cases += [improve_case(rng) for _ in range(max(200, n_large // 3))]
+    cases += [share_assets(rng, large_case(rng)) for _ in range(n_large)]
+    cases += [share_assets(rng, improve_case(rng)) for _ in range(max(200, n_large // 3))]
     return cases, ncorpus
 
 
